@@ -69,7 +69,7 @@ def translate(ctx):
         ctx.extra['translator'] = 'translated from /repo/pyIRDecoder/utils.py'
     except Refused as e:
         ctx.note('translator refused build_mce_rlc (%s); using committed snapshot model + exhaustive correspondence' % e)
-        text = open(os.path.join(vlib.VERIF, 'coq', 'snapshot', 'Mce_body.v')).read()
+        text = open(os.path.join(vlib.COQ_DIR, 'snapshot', 'Mce_body.v')).read()
         ctx.extra['translator'] = 'refused: %s; snapshot model' % e
     with open(os.path.join(ctx.build, 'Mce.v'), 'w') as fh:
         fh.write(HEADER + text)
